@@ -281,7 +281,15 @@ def _run(case, crash, log, res):
 
             def c2():
                 box[n + 1] = _do(w, ids, ops[n], res)
-            sched = Scheduler(make_policy(ops[n - 1]["pair"]), PAIR_TRACE, log=None)
+            sp = dict(ops[n - 1]["pair"])
+            # every crash variant of a history explores its own interleaving; two in three place the pre-emption points
+            # inside the adapter only, so that the two saves really overlap
+            salt = (k or 0) * 31 + (k2_ or 0) * 7 + (len(repr(crash.get("fault"))) if crash else 0) + (1 if crash and crash.get("stray") else 0)
+            sp["seed"] = (sp.get("seed", 0) * 1000003 + salt) % (2**32)
+            narrow = sp["seed"] % 3 != 0
+            if narrow:
+                sp["p"] = [0.15, 0.3, 0.5][sp["seed"] % 3 - 1] if sp["seed"] % 3 else 0.3
+            sched = Scheduler(make_policy(sp), PAIR_TRACE[2:] if narrow else PAIR_TRACE, log=None)
             with sched:
                 rr = run_tasks(sched, [c1, c2])
             for x in rr:
